@@ -798,7 +798,12 @@ class Class(CanContainImportsDocumentable):
         elif name in self._localNameToFullName_map:
             return self._localNameToFullName_map[name]
         else:
-            return self.parent._localNameToFullName(name)
+            # Names that are not bound in the class body are looked up in the
+            # module: like Python, skip the scopes of the enclosing classes.
+            parent = self.parent
+            while isinstance(parent, Class):
+                parent = parent.parent
+            return parent._localNameToFullName(name)
 
     @property
     def constructor_params(self) -> Mapping[str, Optional[ast.expr]]:
